@@ -42,7 +42,10 @@ type Scenario struct {
 	Timed    bool // uses blocking pops: virtual time auto-advances
 	PubSub   bool
 	Conns    []string // pubsub: thread i uses connection Conns[i] ("" = none)
-	Gen      bool     // generated pair scenario (pairs.go): reported in aggregate
+	// ReplyOnConn: a thread that owns a connection writes each reply to it, as Manager.Handle does
+	// (the thread plays the connection's handler goroutine), so replies and pushes share the stream
+	ReplyOnConn bool
+	Gen         bool // generated pair scenario (pairs.go): reported in aggregate
 }
 
 type opRec struct {
@@ -55,13 +58,15 @@ type opRec struct {
 }
 
 type runState struct {
-	mgr    *server.Manager
-	ops    []*opRec
-	conns  map[string]*h.Conn
-	ctxs   map[string]context.CancelFunc
-	w      *rt.World
-	sc     *Scenario
-	seedKS *model.KS
+	mgr   *server.Manager
+	ops   []*opRec
+	conns map[string]*h.Conn
+	// written[conn] = the raw replies the connection's handler thread wrote to it, in order
+	written map[string][][]byte
+	ctxs    map[string]context.CancelFunc
+	w       *rt.World
+	sc      *Scenario
+	seedKS  *model.KS
 }
 
 func keysOf() h.KeySet { return h.Keys(shardNum) }
@@ -89,7 +94,7 @@ func subst(a []string) []string {
 func mkInstance(sc *Scenario) (*explorer.Instance, *runState) {
 	h.Boot(shardNum, 1)
 	w := rt.NewWorld()
-	rs := &runState{mgr: h.NewManager(), conns: map[string]*h.Conn{}, ctxs: map[string]context.CancelFunc{}, w: w, sc: sc}
+	rs := &runState{mgr: h.NewManager(), conns: map[string]*h.Conn{}, written: map[string][][]byte{}, ctxs: map[string]context.CancelFunc{}, w: w, sc: sc}
 	rs.seedKS = model.NewKS(rt.Epoch * 1000)
 	bg := context.Background()
 	for _, c := range sc.Seed {
@@ -166,6 +171,10 @@ func mkInstance(sc *Scenario) (*explorer.Instance, *runState) {
 				}
 				r.Reply = reply
 				r.Ret, r.Done = w.Steps, true
+				if conn != nil && sc.ReplyOnConn {
+					rs.written[conn.Name] = append(rs.written[conn.Name], reply)
+					conn.Write(reply)
+				}
 				yield()
 			}
 		})
@@ -599,7 +608,10 @@ func racePass(prop string, reps int) int {
 							res = mgr.ExecCommand(ctx, h.B(a...), nil)
 						}
 						if res != nil && !reflect.ValueOf(res).IsNil() {
-							_ = res.ToBytes()
+							b := res.ToBytes()
+							if conn != nil && sc.ReplyOnConn {
+								conn.Write(b)
+							}
 						}
 					}
 				}(ti, prog)
